@@ -73,7 +73,7 @@ def ilist(v):
     return ",".join(str(x) for x in v) if v else "_"
 
 
-def gen(rng, tier):
+def _gen_core(rng, tier):
     N = 300 if tier == "quick" else 3000
     for _ in range(N):
         rows, n, L = rand_al(rng)
@@ -162,3 +162,22 @@ def shrink(c):
         r2 = rows[:i] + rows[i + 1:]
         if r2:
             yield Case(c.op, [rows_str(r2)] + a[1:])
+
+
+# ---- command-line glue: a multi-alignment Phylip input must be treated as its alignments one by one (`detmulti`) ----
+MULTI_CMDS = [['subseq', '-s', '1', '-l', '2'], ['subseq', '--ref-seq', 'ref', '-s', '0', '-l', '2'], ['subseq', '-s', '1', '-l', '2', '-r'], ['subseq', '--ref-seq', 'ref', '-s', '1', '-l', '1', '-r'], ['subsites', '0', '2'], ['subsites', '--ref-seq', 'ref', '0', '1'], ['subsites', '-r', '0', '2'], ['subsites', '--ref-seq', 'ref', '-r', '0', '1'], ['transpose']]
+
+
+def gen(rng, tier):
+    from driver import multigen
+    for c in _gen_core(rng, tier):
+        yield c
+    for _ in range(2 if tier == "quick" else 20):
+        for argv in MULTI_CMDS:
+            yield multigen.multi_case(multigen.alignments(rng), argv, "cli-multi-" + "-".join(argv[:2]))
+
+
+def matches(c):
+    if c.op.startswith("det"):
+        return (c.impl or "").startswith("same")
+    return c.model == c.impl
